@@ -72,19 +72,24 @@ Buildable(c) ==
     /\ (c.capture \in {"posx", "posx_namek"} => c.px # Omit)
     /\ (c.capture = "posy" => c.py # Omit)
 
+NoKey == <<"nokey", <<>>, <<>>>>
+Key(c) == IF Buildable(c) THEN SpecKey(c) ELSE NoKey
+
 Init ==
     /\ \E a \in Aliases, st \in BOOLEAN, sh \in Shapes, x \in ValsX, y \in ValsS, k \in ValsS, cap \in Captures, p \in Pres :
           call = Call(a, st, sh, x, y, k, cap, p)
-    /\ Buildable(call)
-    /\ key = SpecKey(call)
+    \* a call whose key cannot be built (a positional capture the caller omitted) has *no* key: the recorder discards the
+    \* recording / refuses the replay instead of inventing one from the remaining captures
+    /\ key = Key(call)
 Next == UNCHANGED vars
 Spec == Init /\ [][Next]_vars
 
 \* the key is a function of alias and captured values only
-PresentationIndependent == key = SpecKey([call EXCEPT !.pres = 1])
+PresentationIndependent == key = Key([call EXCEPT !.pres = 1])
 UncapturedIgnored ==
     /\ (call.capture = "none" => key = <<call.alias, <<>>, <<>>>>)
-    /\ (call.capture = "posx" /\ call.py # Omit => key = SpecKey([call EXCEPT !.y = "other"]))
-    /\ (call.capture = "namek" /\ call.px # Omit => key = SpecKey([call EXCEPT !.x = "other"]))
-AliasInKey == key[1] = call.alias
+    /\ (call.capture = "posx" /\ call.py # Omit => key = Key([call EXCEPT !.y = "other"]))
+    /\ (call.capture = "namek" /\ call.px # Omit => key = Key([call EXCEPT !.x = "other"]))
+AliasInKey == Buildable(call) => key[1] = call.alias
+NoKeyIffUnbuildable == (key = NoKey) <=> ~Buildable(call)
 =============================================================================
